@@ -180,6 +180,14 @@ Theorem params_ok_holds : params_ok = true.
 Proof. exact params_ok_true. Qed.
 Print Assumptions params_ok_holds.
 
+(* 13. The correspondence check evaluates, on every observed case, a boolean that implies the hypotheses
+   used above (non-negative value/gas/price/pre-balances, 0 <= gas left <= limit, inbound ETX price 0). *)
+Theorem case_hypotheses_checked : forall c, hyps_ok c = true ->
+  wf_tx (c_env c) (c_msg c) (c_opq c) (c_top c) /\ wf_msg (c_msg c) /\ wf_shape (c_msg c)
+  /\ (forall a v, In (a, v) (c_pre c) -> 0 <= v).
+Proof. exact hyps_ok_sound. Qed.
+Print Assumptions case_hypotheses_checked.
+
 (* ---------- non-vacuity ---------- *)
 Definition nv_env : env := mkEnv 2 25000 false 6000000 30000000 0%N.
 (* contract 2 is called with 100, pays 30 to account 3 inside a frame that reverts, emits an ETX of
